@@ -879,12 +879,17 @@ class _Gen:
             lvl = r.choice(['HIDDEN', 'HIDDEN', 'PRIVATE', 'PUBLIC'])
             k = r.random()
             full = s.final_fullname(uid)
-            if k < .6:
+            if k < .55:
                 rules.append(f'{lvl}:{full}')
-            elif k < .8:
+            elif k < .72:
                 rules.append(f'{lvl}:**.{full.split(".")[-1]}')
-            else:
+            elif k < .88 or '.' not in full or ' ' in full:
                 rules.append(f'{lvl}:{".".join(full.split(".")[:-1])}.*')
+            else:
+                # `?` and bracket sets match any character, a dot too
+                dots = [i for i, c in enumerate(full) if c == '.']
+                i = r.choice(dots)
+                rules.append(f"{lvl}:{full[:i]}{r.choice(['?', '[.]', '[!q]', '[._]'])}{full[i + 1:] if r.random() < .5 else full[i + 1:i + 2] + '*'}")
         if r.random() < .3:
             m = r.choice([m for m in s.mods if not m.is_pkg])
             rules.append(f'HIDDEN:{s.modname(m.mid)}')
@@ -895,6 +900,9 @@ class _Gen:
                    and s.notes['qual2uid'].get((mid, qual.rsplit('.', 1)[0])) in base_uids]
         if members and r.random() < .6:
             rules.append(f"{r.choice(['HIDDEN', 'HIDDEN', 'PRIVATE'])}:{s.final_fullname(r.choice(members))}")
+        if len(rules) >= 2 and r.random() < .4:
+            # the same rule given again after others (a config file and the command line): it is the later copy that counts
+            rules.append(rules[r.randrange(len(rules) - 1)])
         s.privacy = rules
 
 
